@@ -65,20 +65,20 @@ impl<T: Debug + Clone + Ord> BooleanFunction<T> for TruthTable<T> {
             .outputs
             .clone()
             .into_iter()
-            .map(|output| (false, output))
+            .map(|output| (true, output))
             .collect::<Vec<_>>();
 
+        // a row is kept only if it agrees with the valuation on every restricted input
         for (input_index, input) in self.inputs.iter().rev().enumerate() {
             if let Some(target_variable_should_be_1) = valuation.get(input) {
                 (0..self.row_count())
                     .filter(|row_index| {
                         let target_variable_is_one =
                             row_index & (1 << input_index) == (1 << input_index);
-                        (*target_variable_should_be_1 && target_variable_is_one)
-                            || (!*target_variable_should_be_1 && !target_variable_is_one)
+                        *target_variable_should_be_1 != target_variable_is_one
                     })
                     .for_each(|row_index| {
-                        outputs_kept[row_index].0 = true;
+                        outputs_kept[row_index].0 = false;
                     });
             }
         }
